@@ -653,6 +653,12 @@ def core_strategy(weights):
             upi = draw(st.booleans())
             inch = draw(st.sampled_from([1, 1, 3]))
             mt, hs = _draw_heads(draw, st, [s for s in (1, 2, 4) if s < ms])
+            if draw(st.integers(0, 7)) == 0:
+                # joint class "head-stride gap as deep as the stem-shortened encoder": a stem leaves log2(max_stride /
+                # stem_stride) down blocks; two heads whose strides are that many levels apart
+                ms, stem, mt = 8, 2, "bottomup"
+                hs = list(draw(st.sampled_from([[1, 4], [4, 1]])))
+                filters = draw(st.sampled_from([16, 16, 24, 32]))
             mults, (batch, ranges), n_parts, n_edges, seed = _draw_common(draw, st)
             bcfg = unet_config(ms, stem, filters, fr, 2, upi, True, inch, min(hs))
             return make_case(bb, bcfg, mt, hs, n_parts, n_edges, batch, _sizes(ms, mults), seed, ranges)
